@@ -83,11 +83,55 @@ Proof. intros. exact (decode_faithful_all fp enc_len CS cache_add cache0 thresho
 Print Assumptions decode_faithful_influx.
 
 Theorem decode_faithful_datadog_logs :
-  forall fp enc_len CS cache_add cache0 threshold flush_limit ctx_ttl (body : list ddlog),
-  exists cs, decode fp enc_len CS cache_add cache0 threshold flush_limit ctx_ttl (BDDLog body) = Done cs /\
-             Forall chunk_rect cs /\ rows_of cs = rows_spec fp ctx_ttl (entries_ddlog body).
-Proof. intros. exact (decode_faithful_all fp enc_len CS cache_add cache0 threshold flush_limit ctx_ttl (BDDLog body)). Qed.
+  forall fp enc_len CS cache_add cache0 threshold flush_limit ctx_ttl (ck : clock) (body : list ddlog),
+  exists cs, decode fp enc_len CS cache_add cache0 threshold flush_limit ctx_ttl (BDDLog ck body) = Done cs /\
+             Forall chunk_rect cs /\ rows_of cs = rows_spec fp ctx_ttl (entries_ddlog ck body).
+Proof. intros. exact (decode_faithful_all fp enc_len CS cache_add cache0 threshold flush_limit ctx_ttl (BDDLog ck body)). Qed.
 Print Assumptions decode_faithful_datadog_logs.
+
+(* Datadog logs sent by Cloudflare (one JSON object per line, the row's text is the line) and Elasticsearch bulk bodies
+   (the document lines behind an index / create action, with the labels of the LAST action line before them): for every
+   clock, the rows are one per entry, in order, with the entry's own labels, text and timestamp *)
+Theorem decode_faithful_cloudflare_logs :
+  forall fp enc_len CS cache_add cache0 threshold flush_limit ctx_ttl (ddsource : string) (ck : clock) (body : list cfline),
+  exists cs, decode fp enc_len CS cache_add cache0 threshold flush_limit ctx_ttl (BCf ddsource ck body) = Done cs /\
+             Forall chunk_rect cs /\ rows_of cs = rows_spec fp ctx_ttl (entries_cf ddsource ck body).
+Proof. intros. exact (decode_faithful_all fp enc_len CS cache_add cache0 threshold flush_limit ctx_ttl (BCf ddsource ck body)). Qed.
+Print Assumptions decode_faithful_cloudflare_logs.
+
+Theorem decode_faithful_elastic_bulk :
+  forall fp enc_len CS cache_add cache0 threshold flush_limit ctx_ttl (ck : clock) (body : list esline),
+  exists cs, decode fp enc_len CS cache_add cache0 threshold flush_limit ctx_ttl (BEs ck body) = Done cs /\
+             Forall chunk_rect cs /\ rows_of cs = rows_spec fp ctx_ttl (entries_es ck body).
+Proof. intros. exact (decode_faithful_all fp enc_len CS cache_add cache0 threshold flush_limit ctx_ttl (BEs ck body)). Qed.
+Print Assumptions decode_faithful_elastic_bulk.
+
+(* time.Now(): when every clock reading taken during the request lies between the clock just before and just after it
+   (clock_okb), an entry that carries a timestamp keeps exactly that one, whatever the clock says, and an entry without one
+   is stamped with a time inside the request: "the row's timestamp is the request's receive time" *)
+Theorem clock_stamped_datadog_rows_are_within_the_request :
+  forall (ck : clock) (body : list ddlog), clock_okb ck = true -> (List.length body <= List.length (ck_nows ck))%nat ->
+  Forall2 (fun (l : ddlog) (e : entry) =>
+             e_labels e = ddlog_labels l /\ e_msg e = dl_msg l /\
+             (dl_ts l <> 0 -> e_ts e = wrap64 (dl_ts l * 1000000)) /\
+             (dl_ts l = 0 -> ck_lo ck <= e_ts e <= ck_hi ck))
+          body (entries_ddlog ck body).
+Proof. exact ddlog_entries_times. Qed.
+Print Assumptions clock_stamped_datadog_rows_are_within_the_request.
+
+Theorem clock_stamped_cloudflare_rows_are_within_the_request :
+  forall (ddsource : string) (ck : clock) (body : list cfline), clock_okb ck = true -> (List.length body <= List.length (ck_nows ck))%nat ->
+  Forall2 (fun (l : cfline) (e : entry) =>
+             e_labels e = cf_labels ddsource l /\ e_msg e = cf_text l /\
+             (cf_ts l <> 0 -> e_ts e = cf_ts l) /\ (cf_ts l = 0 -> ck_lo ck <= e_ts e <= ck_hi ck))
+          body (entries_cf ddsource ck body).
+Proof. exact cf_entries_times. Qed.
+Print Assumptions clock_stamped_cloudflare_rows_are_within_the_request.
+
+Theorem clock_irrelevant_for_timestamped_entries :
+  forall (ck1 ck2 : clock) (body : list ddlog), Forall (fun l => dl_ts l <> 0) body -> entries_ddlog ck1 body = entries_ddlog ck2 body.
+Proof. exact ddlog_clock_irrelevant. Qed.
+Print Assumptions clock_irrelevant_for_timestamped_entries.
 
 Theorem decode_faithful_datadog_metrics :
   forall fp enc_len CS cache_add cache0 threshold flush_limit ctx_ttl (body : list ddseries),
@@ -261,15 +305,15 @@ Print Assumptions entries_element_read.
    hostname / source_type, a message, an unknown member and an integer timestamp -- is walked into exactly the logs it was written
    from, and is answered with one faithful row per log *)
 Theorem decode_faithful_datadog_logs_document :
-  forall (uletter : string -> bool) fp enc_len CS cache_add cache0 threshold flush_limit ctx_ttl (ws : list wlog),
+  forall (uletter : string -> bool) fp enc_len CS cache_add cache0 threshold flush_limit ctx_ttl (ck : clock) (ws : list wlog),
   Forall (fun w => forallb tag_ok (wl_tags w) = true) ws ->
   let logs := map wlog_ddlog ws in
   dd_document uletter dd_int_of (JArr (map wlog_doc ws)) = Some logs /\
-  exists cs, decode fp enc_len CS cache_add cache0 threshold flush_limit ctx_ttl (BDDLog logs) = Done cs /\
-             Forall chunk_rect cs /\ rows_of cs = rows_spec fp ctx_ttl (entries_ddlog logs).
+  exists cs, decode fp enc_len CS cache_add cache0 threshold flush_limit ctx_ttl (BDDLog ck logs) = Done cs /\
+             Forall chunk_rect cs /\ rows_of cs = rows_spec fp ctx_ttl (entries_ddlog ck logs).
 Proof.
   intros. split; [now apply dd_document_written_l|].
-  exact (decode_faithful_all fp enc_len CS cache_add cache0 threshold flush_limit ctx_ttl (BDDLog logs)).
+  exact (decode_faithful_all fp enc_len CS cache_add cache0 threshold flush_limit ctx_ttl (BDDLog ck logs)).
 Qed.
 Print Assumptions decode_faithful_datadog_logs_document.
 
@@ -380,3 +424,18 @@ Example datadog_metrics_document_computes :
   ddmet_document (JObj [("series"%string, JArr (map wseries_doc ws))]) = WOk (map wseries_series ws) /\
   map (fun s => List.length (ddseries_labels s)) (map wseries_series ws) = [4; 0]%nat.
 Proof. vm_compute. split; reflexivity. Qed.
+
+Example clock_hypotheses_met :
+  let ck := CK 1700000000000000000 1700000000000900000 [1700000000000000100; 1700000000000000200] in
+  let body := [DL [("env", "prod")]%string None None None None "with its own time"%string 1600000000123;
+               DL [] None (Some "web"%string) None None "stamped"%string 0] in
+  clock_okb ck = true /\ (List.length body <= List.length (ck_nows ck))%nat /\
+  map e_ts (entries_ddlog ck body) = [1600000000123000000; 1700000000000000200].
+Proof. split; [reflexivity|split; [apply le_n|vm_compute; reflexivity]]. Qed.
+
+Example elastic_bulk_lines_computed :
+  let body := [EL "d0"%string EsDoc; EL "a1"%string (EsSet [("type", "elastic"); ("_id", "7")]%string); EL "d1"%string EsDoc; EL ""%string EsBlank;
+               EL "d2"%string EsDoc; EL "a2"%string EsClear; EL "d3"%string EsDoc] in
+  map (fun e => (List.length (e_labels e), e_msg e, e_ts e)) (entries_es (CK 0 9 [5; 6; 7]) body) = [(2%nat, "d1"%string, 5); (2%nat, "d2"%string, 6)].
+Proof. vm_compute. reflexivity. Qed.
+
